@@ -40,6 +40,7 @@ type ProcScript struct {
 	OnTerm    string     // reaction to a catchable signal: "" / "die" (default), "ignore", "exit:<code>"
 	StartFail []bool     // per launch index: exec fails
 	Children  int        // modelled descendants in the same process group (C06)
+	Hold      func(w *World, pc int) bool // when true the next script action (index pc) is not offered yet
 }
 
 func (ps *ProcScript) launch(i int) []Action {
